@@ -1,8 +1,22 @@
 (* C16 — Derivation-tree operations keep paths, strings, openness and identity consistent.
-   Only statements + `exact`; proofs in Tree/TreeOpsFacts.v, Tree/CacheFacts.v, Tree/TrieFacts.v.
+   Only statements + `exact`; proofs in Tree/TreeOpsFacts.v, Tree/CacheFacts.v, Tree/TrieFacts.v and
+   (proof extension) Tree/TrieMore.v, Tree/TreeOpsMore.v, Tree/CacheMore.v.
    Models: Tree/TreeOps.v (structure), Tree/Cache.v (is_open cache protocol, histories),
-   Tree/Trie.v (key codec, datrie, SubtreesTrie). *)
+   Tree/Trie.v (key codec, datrie, SubtreesTrie).
+
+   STATUS.  FULL: to_string / str, openness, is_open cache (cache_inv for ALL histories, including
+   expand_one_step: C16_cache_inv), paths, is_valid_path, find_node, replace_path, structural hash,
+   key codec, trie contents, next_path (least later path; follows paths(); iteration enumerates
+   paths(); skip_children), leaves / open_leaves.
+   PARTIAL (guard K_wide t = false, the open finding: a node with more than 28 children): every
+   trie VIEW statement - keys / items / values of the root view AND of every sub-view
+   (C16_trie_view_partial, C16_sub_items, C16_sub_values, C16_sub_keys), trie()[p].  The unguarded
+   statements are REFUTED (C16_trie_view_refuted, C16_trie_getitem_refuted).
+   C16_cache_inv_partial is kept (it is implied by C16_cache_inv).
+   NOT PROVED (models + correspondence only): filter(enforce_unique), is_prefix,
+   is_potential_prefix. *)
 From ISLA Require Import Tree PathFacts TreeFacts TreeOps TreeOpsFacts Cache CacheFacts Trie TrieFacts.
+From ISLA Require Import TrieMore TreeOpsMore CacheMore.
 From Coq Require Import Sorted.
 
 (* ---- strings ---- *)
@@ -47,6 +61,34 @@ Example C16_cache_inv_nonvacuous :
 Proof. split; [exact init_StInv | exact ex_history_runs]. Qed.
 Print Assumptions C16_cache_inv_nonvacuous.
 
+(* cache_inv at FULL strength (proof extension, Tree/CacheMore.v): ALL histories, expand_one_step
+   included.  expand_one_step builds its children with the constructor, takes itertools.product of
+   the alternatives and replaces leaf after leaf with replace_path - every tree involved satisfies
+   the invariant. *)
+Theorem C16_cache_inv : forall ops st st',
+  StInv st -> run_ops st ops = Some st' -> forall t, In t (regs st') -> CacheOK t.
+Proof. exact cache_inv. Qed.
+Print Assumptions C16_cache_inv.
+
+(* spelled out from the empty register file: every slot of every node of every tree *)
+Theorem C16_cache_inv_init : forall ops st', run_ops init_state ops = Some st' ->
+  forall t, In t (regs st') -> forall n, In n (cnodes t) -> forall b, cc n = Some b -> b = is_openT (erase n).
+Proof. exact cache_inv_init. Qed.
+Print Assumptions C16_cache_inv_init.
+
+(* every is_open() answer given after any history is the recomputed value *)
+Theorem C16_is_open_answer : forall ops st k b st1 t,
+  run_ops init_state ops = Some st -> nth_error (regs st) k = Some t ->
+  st_is_open st k = Some (Ok b, st1) -> b = is_openT (erase t).
+Proof. exact is_open_answer_any_history. Qed.
+Print Assumptions C16_is_open_answer.
+
+Example C16_cache_inv_expand_nonvacuous :
+  forallb no_expand ex_history_expand = false /\
+  exists st, run_ops init_state ex_history_expand = Some st /\ length (regs st) = 10.
+Proof. exact ex_history_expand_runs. Qed.
+Print Assumptions C16_cache_inv_expand_nonvacuous.
+
 (* one replace_path step keeps all slots correct (the three-way case of the code) *)
 Theorem C16_replace_keeps_caches : forall p t r o t',
   Inv t -> Inv r -> c_replace t p r o = Ok t' -> Inv t'.
@@ -79,6 +121,60 @@ Proof.
   repeat (constructor; [simpl; intuition discriminate|]). constructor.
 Qed.
 Print Assumptions C16_uniq_nonvacuous.
+
+(* ---- next_path (proof extension, Tree/TreeOpsMore.v) ---- *)
+(* order-theoretic spec: on a path of the tree next_path never raises; it returns the LEAST path of
+   the tree that comes after p in pre-order (skip_children: after p and not below p), and None
+   exactly when there is none.  [after false] = pre_lt, [after true] = doc_lt. *)
+Theorem C16_next_path_least : forall t p skip, shape_ok t = true -> valid t p ->
+  (exists q, next_path t p skip = Ok (Some q) /\ valid t q /\ after skip p q
+             /\ forall r, valid t r -> after skip p r -> pre_le q r)
+  \/ (next_path t p skip = Ok None /\ forall r, valid t r -> ~ after skip p r).
+Proof. exact next_path_least. Qed.
+Print Assumptions C16_next_path_least.
+
+(* against paths(): next_path(p) is the element that follows p (None after the last one, where the
+   assertion of the code holds); with skip_children the first later path that is not below p *)
+Theorem C16_next_path_follows : forall t, shape_ok t = true -> forall l1 l2 p,
+  positions t = l1 ++ p :: l2 -> next_path t p false = Ok (hd_error l2).
+Proof. exact next_path_follows. Qed.
+Print Assumptions C16_next_path_follows.
+
+Theorem C16_next_path_skip_follows : forall t, shape_ok t = true -> forall l1 l2 p,
+  positions t = l1 ++ p :: l2 ->
+  next_path t p true = Ok (hd_error (filter (fun r => negb (prefixb p r)) l2)).
+Proof. exact next_path_skip_follows. Qed.
+Print Assumptions C16_next_path_skip_follows.
+
+(* "Repeated calls result in an iterator over the paths in the tree": iterating from () yields
+   exactly positions t (= the paths of paths(), C16_paths_total) in order, then None *)
+Theorem C16_next_path_enumerates : forall t, shape_ok t = true -> walk (size t) t [] = Some (positions t).
+Proof. exact next_path_enumerates. Qed.
+Print Assumptions C16_next_path_enumerates.
+
+Example C16_next_path_nonvacuous :
+  shape_ok (Node [60; 97; 62]%N 1 false
+                 [Node [60; 98; 62]%N 2 false [Node [120]%N 3 false []]; Node [122]%N 6 true []]) = true
+  /\ walk 4 (Node [60; 97; 62]%N 1 false
+                  [Node [60; 98; 62]%N 2 false [Node [120]%N 3 false []]; Node [122]%N 6 true []]) []
+     = Some [[]; [0]; [0; 0]; [1]].
+Proof. exact next_path_nonvacuous. Qed.
+Print Assumptions C16_next_path_nonvacuous.
+
+(* ---- leaves / open_leaves ---- *)
+Theorem C16_leaves : forall t,
+  (forall p s, In (p, s) (leaves t) <-> subtree t p = Some s /\ no_children s = true)
+  /\ StronglySorted pre_lt (map fst (leaves t)).
+Proof. exact leaves_full. Qed.
+Print Assumptions C16_leaves.
+
+Theorem C16_open_leaves : forall t,
+  (forall p s, In (p, s) (open_leaves t) <-> subtree t p = Some s /\ opn s = true)
+  /\ StronglySorted pre_lt (map fst (open_leaves t))
+  /\ (forall pt, In pt (open_leaves t) -> In pt (leaves t))
+  /\ (is_openT t = true <-> open_leaves t <> []).
+Proof. exact open_leaves_full. Qed.
+Print Assumptions C16_open_leaves.
 
 (* ---- replace_path ---- *)
 Theorem C16_replace_frame : forall p t r t', replace_path t p r = Ok t' ->
@@ -139,11 +235,10 @@ Print Assumptions C16_trie_contents.
      st_items fixed (get_subtrie (trie_of t) q) = Ok (map (fun pt => (fst pt, pt)) (nodes s))
    and st_keys (trie_of t) = map fst (nodes t).
    REFUTED on the faithful model for trees with a node of more than 28 children (class K_wide).
-   PROVED under the guard K_wide t = false for the ROOT view: keys (C16_trie_keys_partial), items and
-   values (C16_root_items, C16_root_values, below);
-   the sub-view / items half under the same guard is stated here but NOT proved yet (missing:
-   prefix filtering of [nodes t] = shifted [nodes s], assoc lookup); the correspondence check and the
-   spec-side oracle evaluate it on every generated tree; proved instance: C16_trie_view_witness. *)
+   PROVED under the guard K_wide t = false, both halves: C16_trie_view_partial (below, proof
+   extension Tree/TrieMore.v: prefix filtering of [nodes t] = [nodes s] with relative paths
+   (below_nodes), lookup by the injective key); root view also as C16_trie_keys_partial,
+   C16_root_items, C16_root_values. *)
 Theorem C16_trie_keys_partial : forall t, K_wide t = false -> st_keys (trie_of t) = map fst (nodes t).
 Proof. exact trie_keys_partial. Qed.
 Print Assumptions C16_trie_keys_partial.
@@ -162,6 +257,49 @@ Theorem C16_trie_getitem_refuted :
   exists t p s, subtree t p = Some s /\ st_getitem (trie_of t) p = Raise KeyErr.
 Proof. exact trie_getitem_refuted. Qed.
 Print Assumptions C16_trie_getitem_refuted.
+
+(* trie_view under the guard, exactly the full statement above (no shape_ok needed) *)
+Theorem C16_trie_view_partial : forall t, K_wide t = false ->
+  (forall q s, subtree t q = Some s ->
+     st_items true (get_subtrie (trie_of t) q) = Ok (map (fun pt => (fst pt, pt)) (nodes s)))
+  /\ st_keys (trie_of t) = map fst (nodes t).
+Proof. exact trie_view_partial. Qed.
+Print Assumptions C16_trie_view_partial.
+
+(* every sub-view, every path q (sub_nodes t q = nodes of subtree t q, or [] when q is not a path of
+   t), both variants of the value-path slice: items / values / keys carry paths RELATIVE to q, in
+   pre-order - this is the quantifier domain the evaluator iterates over *)
+Theorem C16_sub_items : forall fixed t q, K_wide t = false ->
+  st_items fixed (get_subtrie (trie_of t) q) = Ok (map (fun pt => (fst pt, pt)) (sub_nodes t q)).
+Proof. exact sub_items. Qed.
+Print Assumptions C16_sub_items.
+
+Theorem C16_sub_values : forall fixed t q, K_wide t = false ->
+  st_values fixed (get_subtrie (trie_of t) q) = Ok (sub_nodes t q).
+Proof. exact sub_values. Qed.
+Print Assumptions C16_sub_values.
+
+Theorem C16_sub_keys : forall t q, K_wide t = false ->
+  st_keys (get_subtrie (trie_of t) q) = map fst (sub_nodes t q).
+Proof. exact sub_keys. Qed.
+Print Assumptions C16_sub_keys.
+
+(* the list fact behind it, for EVERY tree: the nodes below q, made relative, are the nodes of the subtree *)
+Theorem C16_below_nodes : forall q t,
+  below q (nodes t) = match subtree t q with Some s => nodes s | None => [] end.
+Proof. exact below_nodes. Qed.
+Print Assumptions C16_below_nodes.
+
+(* trie()[p] under the guard (unguarded: C16_trie_getitem_refuted) *)
+Theorem C16_trie_getitem_partial : forall t p, K_wide t = false ->
+  st_getitem (trie_of t) p = match subtree t p with Some s => Ok (p, s) | None => Raise KeyErr end.
+Proof. exact trie_getitem_view. Qed.
+Print Assumptions C16_trie_getitem_partial.
+
+Example C16_sub_view_nonvacuous :
+  K_wide deep_tree = false /\ exists s, subtree deep_tree [0] = Some s /\ length (nodes s) = 4.
+Proof. exact sub_items_nonvacuous. Qed.
+Print Assumptions C16_sub_view_nonvacuous.
 
 (* root view of the current code (repaired by /repo commit 0065353, model variant fixed = true):
    items() / values() of tree.trie() list every node with its FULL path (guard: no node with more than
